@@ -63,6 +63,32 @@ struct Runner {
         log_state("reset", sid);
         g_cur = sid;
     }
+    static bool twin_core_equal(const TopologyKernel &a, const TopologyKernel &b) {
+        if (a.n_vertices() != b.n_vertices() || a.n_edges() != b.n_edges() ||
+            a.n_faces() != b.n_faces() || a.n_cells() != b.n_cells()) return false;
+        for (int i = 0; i < (int)a.n_vertices(); ++i)
+            if (a.is_deleted(VertexHandle(i)) != b.is_deleted(VertexHandle(i))) return false;
+        for (int i = 0; i < (int)a.n_edges(); ++i) {
+            EdgeHandle h(i);
+            if (a.is_deleted(h) != b.is_deleted(h)) return false;
+            if (a.is_deleted(h)) continue;
+            if (a.edge(h).from_vertex() != b.edge(h).from_vertex() ||
+                a.edge(h).to_vertex() != b.edge(h).to_vertex()) return false;
+        }
+        for (int i = 0; i < (int)a.n_faces(); ++i) {
+            FaceHandle h(i);
+            if (a.is_deleted(h) != b.is_deleted(h)) return false;
+            if (a.is_deleted(h)) continue;
+            if (a.face(h).halfedges() != b.face(h).halfedges()) return false;
+        }
+        for (int i = 0; i < (int)a.n_cells(); ++i) {
+            CellHandle h(i);
+            if (a.is_deleted(h) != b.is_deleted(h)) return false;
+            if (a.is_deleted(h)) continue;
+            if (a.cell(h).halffaces() != b.cell(h).halffaces()) return false;
+        }
+        return true;
+    }
     void log_state(const char *e, long sid) {
         Json j; j.begin_obj(); j.kv("e", e); j.kv("x", (long long)g_exec); j.kv("sid", (long long)sid);
         j.kv("mesh", box->type);
@@ -99,6 +125,11 @@ struct Runner {
             if (qlevel > 0 && c.chk == 1) { j.key("q"); vq::dump_queries(j, *box->m, qlevel); }
             j.end_obj(); vx::emit(j);
             g_cur = sid;
+        // Once the two runs have legitimately diverged (parallel edges: the
+        // incidence-guided and the scanning search may pick different ones) the
+        // history is no longer in contract for the twin: stop driving it.  The
+        // diverging line itself has been emitted, so the validator still sees it.
+            if (twin && !twin_core_equal(*box->m, *twin->m)) twin.reset();
         }
         g_sid = -1;
     }
